@@ -11,9 +11,9 @@
     no foreign keys; the set of tables is fixed (CREATE / DROP TABLE are outside the model).
 
     The user-defined indexes live in [Database::operations.index_manager], outside the table
-    map; the model stores each index in the record of the table it belongs to ([t_uidx]), and
-    the transaction snapshot (which clones the catalog and the table map only) restores every
-    field of a table except that one.
+    map; the model stores each index in the record of the table it belongs to ([t_uidx]).  The
+    transaction snapshot clones the catalog, the table map and the index DEFINITIONS; ROLLBACK
+    restores the tables, drops every index and re-creates the recorded ones from the restored rows.
 
     Executable definitions only. *)
 From Coq Require Import List ZArith Bool Arith Lia.
